@@ -407,16 +407,26 @@ Fixpoint trim_ws_start_rev (s : bytes) : bytes :=
 
 Definition rust_trim (s : bytes) : bytes := rev_fast (trim_ws_start_rev (rev_fast (trim_ws_start s))).
 
-(** create_object: [object_id.trim()] then validate_object_id (repo.rs:551,570;
-    validate/mod.rs:32-39); the trimmed id is what the inventory stores *)
+(** create_object (repo.rs:551-557, fix 031a721): an id whose [trim()] is empty is
+    refused with InvalidValue, nothing else is done to the id; validate_object_id
+    (repo.rs:577; validate/mod.rs:32-39) refuses the empty id (already covered by the
+    first test); the id reaches Inventory::builder exactly as given - "Every other
+    operation addresses the object by the ID exactly as it is given". *)
 Definition create_object_id (id : bytes) : res bytes :=
+  if is_empty (rust_trim id) then Err
+  else if is_empty id then Err
+  else Ok id.
+
+(** historical: before 031a721 create_object stored [object_id.trim()]; only used by the
+    `..._before_fix` note of Props/C10.v *)
+Definition create_object_id_before_fix (id : bytes) : res bytes :=
   let t := rust_trim id in if is_empty t then Err else Ok t.
 
 (** validate_content_dir, validate/mod.rs:53-61 *)
 Definition validate_content_dir (c : bytes) : bool :=
   negb (bytes_eqb c [DOT] || bytes_eqb c [DOT; DOT] || existsb (fun x => code x =? 47) c).
 
-(** create_object's own guard behind validate_content_dir, repo.rs:574-583
+(** create_object's own guard behind validate_content_dir, repo.rs:581-590
     (fix d88c1da): "The inventory files are stored next to the content directory"
       content_dir.is_empty() || content_dir == INVENTORY_FILE
         || content_dir.starts_with(INVENTORY_SIDECAR_PREFIX)
@@ -427,7 +437,7 @@ Definition validate_content_dir (c : bytes) : bool :=
 Definition cdir_reserved (c : bytes) : bool :=
   is_empty c || bytes_eqb c K_INVENTORY_FILE || starts_with K_INVENTORY_SIDECAR_PREFIX c.
 
-(** the content directory names create_object accepts (repo.rs:572-583): both tests
+(** the content directory names create_object accepts (repo.rs:579-590): both tests
     answer InvalidValue before anything is locked or written *)
 Definition create_object_cdir (c : bytes) : bool :=
   validate_content_dir c && negb (cdir_reserved c).
@@ -457,7 +467,7 @@ Definition content_path (v : vnum) (cdir lp : bytes) : bytes :=
   vdisplay v ++ SL :: cdir ++ SL :: lp.
 
 (** the version directory also holds inventory.json and its sidecar
-    (stage_inventory with finalize copies them there, fs.rs:858-890, 255-274): a
+    (stage_inventory with finalize copies them there, fs.rs:878-910, 255-274): a
     content directory of one of these two names makes every commit fail ("Is a
     directory").  No name create_object accepts collides (Proofs/JsonPosFacts.v,
     [accepted_cdir_no_collision]). *)
